@@ -40,6 +40,9 @@ Scenarios ==
      /\ (s.prior.px = 0 => s.depth \in Depths)
      /\ (s.prior.px # 0 /\ s.prior.d1 # 2 => s.depth = 0)
      /\ (s.prior.px # 0 /\ s.prior.d1 = 2 => s.depth \in {0} \cup Deepen)
+     \* not generated: deepening with auto-followed tags -- git also counts the depth from a followed
+     \* tag whose target the client already owns (it becomes a want of the same request)
+     /\ (s.depth \in Deepen => (s.tags # "follow" \/ s.tag.kind = "none"))
      /\ (s.prior.local => s.prior.d1 = 0)                \* local commits only on a full prior
      /\ s.b < N }
 
